@@ -26,7 +26,15 @@ META = {
 }
 
 COLS = ["k", "u", "a", "b"]
-UNIQUE_SETS = [[[0]], [[0], [1]], [[0], [2, 3]], [[0], [1], [2, 3]]]
+# a unique index is [columns, columns its partial-index predicate requires NOT NULL]
+UNIQUE_SETS = [
+    [[[0], []]],
+    [[[0], []], [[1], []]],
+    [[[0], []], [[2, 3], []]],
+    [[[0], []], [[1], []], [[2, 3], []]],
+    [[[0], []], [[1], [2]]],          # CREATE UNIQUE INDEX .. ON t (u) WHERE a IS NOT NULL
+    [[[0], []], [[1], [2]], [[2, 3], []]],
+]
 
 
 # ---------------------------------------------------------------------------- generation
@@ -128,7 +136,8 @@ def gen_case(rng, tier):
 
 # ---------------------------------------------------------------------------- reference semantics
 def _conflicts(u, a, b):
-    return all(a[c] is not None and b[c] is not None and a[c] == b[c] for c in u)
+    cols, nn = u
+    return all(a[c] is not None and b[c] is not None and a[c] == b[c] for c in cols) and all(a[c] is not None and b[c] is not None for c in nn)
 
 
 def _eval(e, old, new, binds):
@@ -225,16 +234,38 @@ def decorated_type(kind):
 
 
 def make_table(uniques, coltype="int"):
-    from sqlalchemy import Column, Integer, MetaData, Table, UniqueConstraint
+    from sqlalchemy import Column, Index, Integer, MetaData, Table, UniqueConstraint
 
     DT = decorated_type(coltype)
     m = MetaData()
     extra = []
+    partial = []
     for u in uniques:
-        if u != [0]:
-            extra.append(UniqueConstraint(*[COLS[c] for c in u]))
+        cols, nn = u
+        if nn:
+            partial.append(u)
+        elif cols != [0]:
+            extra.append(UniqueConstraint(*[COLS[c] for c in cols], name="uq_" + "_".join(COLS[c] for c in cols)))
     t = Table("t", m, Column("k", Integer, primary_key=True, autoincrement=False), Column("u", Integer), Column("a", DT), Column("b", DT), *extra)
+    for cols, nn in partial:
+        pred = None
+        for c in nn:
+            e = t.c[COLS[c]].is_not(None)
+            pred = e if pred is None else (pred & e)
+        Index("ix_part_" + "_".join(COLS[c] for c in cols), *[t.c[COLS[c]] for c in cols], unique=True, sqlite_where=pred, postgresql_where=pred)
     return m, t
+
+
+def target_args(cl, t):
+    """index_elements / index_where for a clause target"""
+    if cl["target"] is None:
+        return None, None
+    cols, nn = cl["target"]
+    pred = None
+    for c in nn:
+        e = t.c[COLS[c]].is_not(None)
+        pred = e if pred is None else (pred & e)
+    return [t.c[COLS[c]] for c in cols], pred
 
 
 def build_stmt(case, t, flavour):
@@ -253,13 +284,13 @@ def build_stmt(case, t, flavour):
         return sa.bindparam("bp%d" % i, type_=sa.Integer)
 
     for cl in case["clauses"]:
-        tgt = None if cl["target"] is None else [t.c[COLS[c]] for c in cl["target"]]
+        tgt, iw = target_args(cl, t)
         act = cl["action"]
         if act[0] == "N":
-            ins = ins.on_conflict_do_nothing(index_elements=tgt)
+            ins = ins.on_conflict_do_nothing(index_elements=tgt, index_where=iw)
         else:
             set_ = {COLS[c]: sa_expr(e, t, ins, bp) for c, e in act[1]}
-            ins = ins.on_conflict_do_update(index_elements=tgt, set_=set_, where=sa_cond(act[2], t, ins, bp))
+            ins = ins.on_conflict_do_update(index_elements=tgt, index_where=iw, set_=set_, where=sa_cond(act[2], t, ins, bp))
     return ins
 
 
@@ -400,8 +431,13 @@ def enc_cond(w):
     return ":".join([w[0]] + [enc_expr(x) for x in w[1:]])
 
 
+def enc_uidx(u):
+    cols, nn = u
+    return ".".join(str(c) for c in cols) + ("w" + ".".join(str(c) for c in nn) if nn else "")
+
+
 def enc_clause(cl):
-    t = "*" if cl["target"] is None else ".".join(str(c) for c in cl["target"])
+    t = "*" if cl["target"] is None else enc_uidx(cl["target"])
     a = cl["action"]
     if a[0] == "N":
         return t + "~N"
@@ -413,7 +449,7 @@ def enc_row(r):
 
 
 def enc_case(case):
-    us = "|".join(".".join(str(c) for c in u) for u in case["uniques"])
+    us = "|".join(enc_uidx(u) for u in case["uniques"])
     cs = "/".join(enc_clause(c) for c in case["clauses"]) or "-"
     tb = ";".join(enc_row(r) for r in case["table"]) or "-"
     ps = ";".join(enc_row(p["row"]) + "@" + enc_row(p["binds"]) for p in case["params"])
@@ -471,18 +507,21 @@ def check_renderings(ctx, case):
             ctx.violation("c56-pg-compile:" + type(e).__name__, case, str(e)[:300])
             return
         ctx.count("render:postgresql")
-        mt = re.search(r"ON CONFLICT(?: \(([^)]*)\))? DO (NOTHING|UPDATE SET (.*?))(?: RETURNING|$)", sql, re.S)
+        mt = re.search(r"ON CONFLICT(?: \(([^)]*)\))?(?: WHERE (.*?))? DO (NOTHING|UPDATE SET (.*?))(?: RETURNING|$)", sql, re.S)
         if not mt:
             ctx.violation("c56-pg-render-missing", case, sql[:300])
             return
         tgt = [x.strip() for x in mt.group(1).split(",")] if mt.group(1) else None
-        want_t = None if cl["target"] is None else [COLS[c] for c in cl["target"]]
+        want_t = None if cl["target"] is None else [COLS[c] for c in cl["target"][0]]
         if tgt != want_t:
             ctx.violation("c56-pg-render-target", case, "target %s rendered as %s in %s" % (want_t, tgt, sql[:300]))
-        if (cl["action"][0] == "N") != (mt.group(2) == "NOTHING"):
+        want_w = None if cl["target"] is None or not cl["target"][1] else " AND ".join("%s IS NOT NULL" % COLS[c] for c in cl["target"][1])
+        if (mt.group(2) or None) != want_w:
+            ctx.violation("c56-pg-render-index-where", case, "index_where %s rendered as %s in %s" % (want_w, mt.group(2), sql[:300]))
+        if (cl["action"][0] == "N") != (mt.group(3) == "NOTHING"):
             ctx.violation("c56-pg-render-action", case, sql[:300])
         if cl["action"][0] == "U":
-            body = mt.group(3)
+            body = mt.group(4)
             setpart = body.split(" WHERE ")[0]
             got_cols = [p.strip().split(" = ")[0] for p in _split_top(setpart)]
             want_cols = [COLS[c] for c in sorted(c for c, _ in cl["action"][1])]
@@ -490,6 +529,26 @@ def check_renderings(ctx, case):
                 ctx.violation("c56-pg-render-set", case, "SET columns %s rendered %s in %s" % (want_cols, got_cols, sql[:300]))
             if (cl["action"][2][0] != "T") != (" WHERE " in body):
                 ctx.violation("c56-pg-render-where", case, sql[:300])
+        # the same target given by constraint name
+        if cl["target"] is not None and not cl["target"][1] and cl["target"][0] != [0]:
+            cname = "uq_" + "_".join(COLS[c] for c in cl["target"][0])
+            try:
+                if cl["action"][0] == "N":
+                    s2 = pg_d.insert(t).on_conflict_do_nothing(constraint=cname)
+                else:
+                    s2 = pg_d.insert(t).on_conflict_do_update(constraint=cname, set_={"a": 1})
+                sql2 = " ".join(str(s2.compile(dialect=pg_d.dialect())).split())
+                ctx.count("render:postgresql-constraint-name")
+                if ("ON CONFLICT ON CONSTRAINT %s DO" % cname) not in sql2:
+                    ctx.violation("c56-pg-render-constraint-name", case, sql2[:300])
+                # and by the (named) UniqueConstraint object itself: rendered by its name
+                uc = next(c_ for c_ in t.constraints if getattr(c_, "name", None) == cname)
+                s3 = pg_d.insert(t).on_conflict_do_nothing(constraint=uc)
+                sql3 = " ".join(str(s3.compile(dialect=pg_d.dialect())).split())
+                if ("ON CONFLICT ON CONSTRAINT %s DO NOTHING" % cname) not in sql3:
+                    ctx.violation("c56-pg-render-constraint-object", case, sql3[:300])
+            except Exception as e:  # noqa: BLE001
+                ctx.violation("c56-pg-constraint-compile:" + type(e).__name__, case, str(e)[:300])
         # batch mode for ordered RETURNING with upsert behaviours (values counter on PG)
         imv = comp._insertmanyvalues
         if imv is not None:
